@@ -417,6 +417,16 @@ def run_case(case, classes, number, tier, mode, tol):
         else:
             rsig, st, cart = project(raw)
             results.append((sa, sb, cart, (rsig, st, coords.stored_of(A))))
+            # documented ranges of the stored coordinates of a result (C13): the accessors return them as stored
+            slack = mpf(10) ** -50 if mode == "mp" else mpf(10) ** -15
+            pi_ = PI if mode == "mp" else mpf(math.pi)
+            if rsig[0] == "rhophi":
+                if _finite(st[1]) and not (-pi_ - slack <= st[1] <= pi_ + slack):
+                    records.append({"kind": "range", "sig": [sa, sb], "rsig": rsig, "got": mpmath.nstr(st[1], 30), "want": "phi of the result in [-pi, pi]"})
+                if _finite(st[0]) and st[0] < 0:
+                    records.append({"kind": "range", "sig": [sa, sb], "rsig": rsig, "got": mpmath.nstr(st[0], 30), "want": "rho of the result >= 0"})
+            if len(rsig) > 1 and rsig[1] == "theta" and _finite(st[2]) and not (-slack <= st[2] <= pi_ + slack):
+                records.append({"kind": "range", "sig": [sa, sb], "rsig": rsig, "got": mpmath.nstr(st[2], 30), "want": "theta of the result in [0, pi]"})
     if not results:
         return records, hits, 0
     canon = (CANON[len(va)], CANON[len(vb)] if vb is not None else None)
